@@ -92,7 +92,7 @@ def reg(name, **kw):
     """kw: hydro (name of the xpmc.hydro family supplying path/alphabet/times/domain) or path+alphabet+times+domain;
     pdims(cfg) -> {param: dim}; fields -> set of field names returned; relations(cfg) -> list; gens -> active dimensions;
     tol; fdims(cfg) -> overrides of FIELD_DIMS; layout '1d' | 'xy'; resolve(cfg) -> constructor kwargs."""
-    d = dict(name=name, gens=("M", "L", "T"), tol=1e-11, layout="1d", cls="A")
+    d = dict(name=name, gens=("M", "L", "T"), tol=1e-11, layout="1d", cls="A")     # closed forms: measured worst <= 1e-14 (props/C08.py TOL_NOTE)
     if "hydro" in kw:
         h = hydro.by_name(kw["hydro"])
         d.update(path=h["path"], alphabet=h["alphabet"], times=h["times"], domain=h["domain"], njumps=h.get("njumps", 0),
@@ -474,7 +474,7 @@ def _blake_res(c):
 
 _BLAKE_FIELDS = {"curr_posn", "displacement", "strain_rr", "strain_qq", "strain_vol", "density", "stress_rr", "stress_qq", "pressure",
                  "stress_dev_rr", "stress_dev_qq", "stress_diff"}
-reg("Blake", path="blake.blake.Blake", fields=_BLAKE_FIELDS,
+reg("Blake", path="blake.blake.Blake", fields=_BLAKE_FIELDS, tol=1e-10,      # measured worst 1.9e-12 (see props/C08.py TOL_NOTE)
     alphabet={"ref_density": [3000.0, 2000.0], "cavity_radius": [0.1, 0.25], "pressure_scale": [1.0e6, 3.0e6], "_elastic": [0, 1, 2, 3, 4]},
     resolve=_blake_res, times=lambda c: [1.6e-4, 5.0e-5],
     pdims=lambda c: {"ref_density": RHO, "cavity_radius": LEN, "pressure_scale": PRES, "lame_mod": PRES, "shear_mod": PRES,
